@@ -137,6 +137,76 @@ class _Ren(ast.NodeTransformer):
         return node
 
 
+class _Subst(ast.NodeTransformer):
+    def __init__(self, name, expr):
+        self.name, self.expr, self.done = name, expr, 0
+
+    def visit_Name(self, node):
+        if node.id == self.name and isinstance(node.ctx, ast.Load):
+            self.done += 1
+            return ast.copy_location(self.expr, node)
+        return node
+
+
+def inline_new_temps(f, ref_names):
+    """Undo "introduce explaining variable": a local that does not exist on the reference tree, is bound exactly once
+    by a plain `name = <expression>` statement and read exactly once, in the statement that directly follows, is
+    substituted back into that statement and its binding removed.  Returns the number of temporaries inlined."""
+    n_inlined = 0
+    changed = True
+    while changed:
+        changed = False
+        stores, loads = {}, {}
+        for n in ast.walk(f):
+            if isinstance(n, ast.Name):
+                (stores if isinstance(n.ctx, ast.Store) else loads).setdefault(n.id, []).append(n)
+        params = {a.arg for n in ast.walk(f) if isinstance(n, ast.arguments) for a in n.posonlyargs + n.args + n.kwonlyargs}
+        for holder in ast.walk(f):
+            for fld in ('body', 'orelse', 'finalbody'):
+                blk = getattr(holder, fld, None)
+                if not isinstance(blk, list):
+                    continue
+                for i, st in enumerate(blk[:-1]):
+                    if not (isinstance(st, ast.Assign) and len(st.targets) == 1 and isinstance(st.targets[0], ast.Name)):
+                        continue
+                    nm = st.targets[0].id
+                    if nm in ref_names or nm in params or len(stores.get(nm, [])) != 1 or len(loads.get(nm, [])) != 1:
+                        continue
+                    nxt = blk[i + 1]
+                    if isinstance(nxt, (ast.FunctionDef, ast.AsyncFunctionDef, ast.ClassDef)):
+                        continue
+                    # the single read must be in the header/expression part of the next statement
+                    target = nxt
+                    if isinstance(nxt, (ast.If, ast.While)):
+                        target = nxt.test
+                    elif isinstance(nxt, ast.For):
+                        target = nxt.iter
+                    elif isinstance(nxt, ast.With):
+                        target = nxt.items[0].context_expr
+                    if not any(x is loads[nm][0] for x in ast.walk(target)):
+                        continue
+                    sub = _Subst(nm, st.value)
+                    if target is nxt:
+                        blk[i + 1] = sub.visit(nxt)
+                    elif isinstance(nxt, (ast.If, ast.While)):
+                        nxt.test = sub.visit(nxt.test)
+                    elif isinstance(nxt, ast.For):
+                        nxt.iter = sub.visit(nxt.iter)
+                    else:
+                        nxt.items[0].context_expr = sub.visit(nxt.items[0].context_expr)
+                    del blk[i]
+                    n_inlined += 1
+                    changed = True
+                    break
+                if changed:
+                    break
+            if changed:
+                break
+    if n_inlined:
+        ast.fix_missing_locations(f)
+    return n_inlined
+
+
 def canonicalise(module_name, tree):
     """rename locals back to the reference names where only names changed; returns list of notes"""
     notes = []
@@ -144,6 +214,10 @@ def canonicalise(module_name, tree):
     mg = module_globals_of(tree)
     for qual, f in top_functions(tree):
         want = r.get(qual)
+        if want is not None:
+            k = inline_new_temps(f, {nm for nm, _ in want})
+            if k:
+                notes.append('%s.%s: %d new single-use temporar%s inlined' % (module_name, qual, k, 'y' if k == 1 else 'ies'))
         if not want:
             continue
         cur = binding_sites(f, mg)
